@@ -136,6 +136,12 @@ def operators(ctx, envs):
             sb = (sb[0], sb[1], [abs(v) for v in sb[2]])
         if sym == "^=" and sb[0] in ("list", "tuple"):
             sb = (sb[0], sorted(set(sb[1])))
+        if sym == "&=" and sb[0] in ("list", "tuple") and sa[1] and rng.random() < 0.3:
+            # repeats in the operand: as many HITS as the set has members, but fewer distinct ones
+            hit = rng.sample(sa[1], rng.randint(1, max(1, len(sa[1]) - 1)))
+            lst = [hit[i % len(hit)] for i in range(len(sa[1]))]
+            rng.shuffle(lst)
+            sb = (sb[0], lst)
         if ek[2] == "none-int" and sb[0] in ("list", "tuple"):
             sb = (sb[0], [k for k in sb[1] if k != 0])
         from harness.families import sizes
